@@ -524,8 +524,27 @@ func (n *c18Net) runQueries(qs []c18Q) map[string]string {
 
 // ---------- export / import ----------
 
-func c18ExportImport(t *testing.T, r *rand.Rand, w *CaseWriter, label string, ref *c18Net, nPerturb int) {
+func c18ExportImport(t *testing.T, r *rand.Rand, w *CaseWriter, label string, ref *c18Net, nPerturb int, g *c18Gen) {
 	cdc := ref.app.AppCodec()
+	for _, k := range c18SortedKeys(g.lcFinalStats()) {
+		w.CountN("exported_lifecycle_marker_"+k, int64(g.lcFinalStats()[k]))
+	}
+	stateMarkers1 := ref.stateMarkers()
+	// the first key bytes present in every custom module's store at export time
+	for _, m := range c18Modules {
+		seen := map[string]bool{}
+		var bs []string
+		for _, e := range ref.rawStore(m) {
+			if len(e) >= 2 && !seen[e[:2]] {
+				seen[e[:2]] = true
+				var b uint64
+				fmt.Sscanf(e[:2], "%x", &b)
+				bs = append(bs, c18N(b))
+			}
+		}
+		w.Add(fmt.Sprintf("CPrefixes %s %s %s", coqStr(label), coqStr(m), coqList(bs)), map[string]any{"kind": "store_prefixes", "label": label, "module": m, "first_bytes": bs})
+		w.CountN("store_prefix_bytes_seen", int64(len(bs)))
+	}
 	g1, err := ref.export()
 	if err != nil {
 		t.Fatalf("%s: export: %v", label, err)
@@ -580,10 +599,12 @@ func c18ExportImport(t *testing.T, r *rand.Rand, w *CaseWriter, label string, re
 
 	// first generation: a fresh chain from g1
 	accept1, accept2 := true, true
+	importErr := ""
 	e1, err := c18Start(t, g1, "")
 	var m2, m2x, m3 c18Mods
 	var d2, d2x, d3 c18Deep
 	var ixImp, ixRef2, ixImp2 string
+	stateMarkers2 := "[]"
 	var st2deep map[string]json.RawMessage
 	var g2 c18Genesis
 	var snap2 c18Snap
@@ -597,6 +618,10 @@ func c18ExportImport(t *testing.T, r *rand.Rand, w *CaseWriter, label string, re
 	if err != nil {
 		accept1, accept2 = false, false
 		w.Count("import_rejected")
+		importErr = err.Error()
+		if len(importErr) > 400 {
+			importErr = importErr[:400]
+		}
 	} else {
 		defer e1.close()
 		// pure round trip of the modelled modules: keeper exports of the InitChain state
@@ -620,12 +645,71 @@ func c18ExportImport(t *testing.T, r *rand.Rand, w *CaseWriter, label string, re
 				w.Count("import_first_block_failed")
 			}
 		}
+		nCont := 0
+		var contDiffs []map[string]any
+		contUnexplained := 0
+		if accept1 {
+			// the state right after the import, before anything else is done to it
+			direct := c18StoreDiffs(ref, e1)
+			for _, m := range append(append([]string{}, c18Modules...), c18MarkerAccounts) {
+				diff := direct[m]
+				desc := map[string]any{"kind": "store", "label": label + "/direct", "module": m, "differing_entries": len(diff), "when": "three empty blocks after the import"}
+				if len(diff) > 0 {
+					desc["first_differences"] = diff[:min(len(diff), 12)]
+				}
+				w.Add(fmt.Sprintf("CStore %s %s %s", coqStr(label+"/direct"), coqStr(m), c18N(uint64(len(diff)))), desc)
+			}
+			c18AttrCounterCases(w, label+"/direct", ref, e1, true)
+			// import-then-continue equals continue: both chains run the same further blocks of
+			// signed transactions; the first one asks for the deletion of every cancelled
+			// life-cycle marker by its manager
+			for i := 0; i < scale(3, 6) && accept1; i++ {
+				var must []*c18Tx
+				if i == 0 {
+					must = g.lcDeletes()
+					w.CountN("postimport_manager_deletes", int64(len(must)))
+				}
+				bl := g.buildBlock(2+r.Intn(5), false, must)
+				at = ref.now.Add(time.Duration(4+r.Intn(20)) * time.Second)
+				ctrA, ctrB := c18AttrCounters(ref), c18AttrCounters(e1)
+				dbl := make([]bool, len(bl.plans))
+				for pi, p := range bl.plans {
+					dbl[pi] = c18AttrDoubleCounted(p, ref, e1)
+				}
+				resA, err := g.runBlock(bl, at)
+				if err != nil {
+					t.Fatalf("%s: continuation block on the exporting chain: %v", label, err)
+				}
+				resB, err := e1.block(at, bl.txs)
+				if err != nil {
+					accept1 = false
+					w.Count("import_continuation_block_failed")
+				} else {
+					for ti := range resA.TxResults {
+						a, b := resA.TxResults[ti], resB.TxResults[ti]
+						if a.Code != b.Code || a.GasUsed != b.GasUsed || a.Log != b.Log || !bytes.Equal(a.Data, b.Data) {
+							// the one explained shape (known finding, findings/C18.md finding 2): an attribute
+							// delete that costs different gas because the name->address lookup counter it
+							// decrements was double-counted on the exporting chain and rebuilt by the import
+							explained := a.Code == b.Code && a.Log == b.Log && bytes.Equal(a.Data, b.Data) && dbl[ti] && c18AttrCounterDiffers(bl.plans[ti], ctrA, ctrB)
+							if !explained {
+								contUnexplained++
+							}
+							contDiffs = append(contDiffs, map[string]any{"explained_by_attribute_lookup_counter": explained,"block_after_import": 4 + i, "tx": bl.kinds[ti], "code": []uint32{a.Code, b.Code},
+								"gas_used": []int64{a.GasUsed, b.GasUsed}, "log_exporting": a.Log[:min(len(a.Log), 160)], "log_imported": b.Log[:min(len(b.Log), 160)]})
+						}
+					}
+				}
+				nCont++
+				w.CountN("postimport_txs", int64(len(bl.txs)))
+			}
+		}
 		if accept1 {
 			// bank differs by the mint module's inflation, so app hashes differ; the results and
 			// events of the blocks after the import must not
 			strip := func(ds []string) []string {
 				var out []string
-				for _, d := range ds[max(0, len(ds)-3):] {
+				for _, d := range ds[max(0, len(ds)-3-nCont):] {
 					if p := strings.SplitN(d, "|", 2); len(p) == 2 {
 						out = append(out, d[:strings.Index(d, ":")]+":"+p[1])
 					}
@@ -634,7 +718,9 @@ func c18ExportImport(t *testing.T, r *rand.Rand, w *CaseWriter, label string, re
 			}
 			a, b := strip(ref.digests), strip(e1.digests)
 			w.Add(fmt.Sprintf("CDigests %s \"postimport\" %s %s", coqStr(label), c18StrList(a), c18StrList(b)),
-				map[string]any{"kind": "digests", "label": label, "mode": "postimport", "first_difference": c18FirstDiff(a, b)})
+				map[string]any{"kind": "digests", "label": label, "mode": "postimport", "blocks": len(a), "blocks_with_transactions": nCont, "first_difference": c18FirstDiff(a, b), "differing_transactions": contDiffs,
+					"events_equal":                                c18EventsPartEqual(a, b),
+					"only_attribute_lookup_counter_gas_differs": len(contDiffs) > 0 && contUnexplained == 0 && c18EventsPartEqual(a, b)})
 		}
 	}
 	if accept1 {
@@ -676,6 +762,7 @@ func c18ExportImport(t *testing.T, r *rand.Rand, w *CaseWriter, label string, re
 		}
 		w.CountN("queries_compared", int64(len(qs)))
 		storeDiff = c18StoreDiffs(ref, e1)
+		c18AttrCounterCases(w, label, ref, e1, false)
 		// second generation
 		if m2x, err = c18ParseMods(cdc, st2); err != nil {
 			t.Fatalf("%s: parse export 2: %v", label, err)
@@ -685,6 +772,7 @@ func c18ExportImport(t *testing.T, r *rand.Rand, w *CaseWriter, label string, re
 			t.Fatalf("%s: parse export 2 (exchange/marker/metadata): %v", label, err)
 		}
 		ixRef2 = e1.deepIndex()
+		stateMarkers2 = e1.stateMarkers()
 		st2deep = st2
 		e2, err := c18Start(t, g2, "")
 		if err != nil {
@@ -726,7 +814,7 @@ func c18ExportImport(t *testing.T, r *rand.Rand, w *CaseWriter, label string, re
 			}
 		}
 	}
-	w.Add(fmt.Sprintf("CAccepts %s %s %s", coqStr(label), coqBool(accept1), coqBool(accept2)), map[string]any{"kind": "accepts", "label": label, "first": accept1, "second": accept2})
+	w.Add(fmt.Sprintf("CAccepts %s %s %s", coqStr(label), coqBool(accept1), coqBool(accept2)), map[string]any{"kind": "accepts", "label": label, "first": accept1, "second": accept2, "import_error": importErr})
 	if accept1 {
 		tabs := c18Tables(snap, time.Unix(g1.TimeUnix, 0), nil, m1, m2)
 		if accept2 {
@@ -739,14 +827,14 @@ func c18ExportImport(t *testing.T, r *rand.Rand, w *CaseWriter, label string, re
 				"quarantine_records": len(m1.Quar.QuarantinedFunds), "temp_sanctions": len(m1.Sanc.TemporaryEntries), "triggers": len(m1.Trig.Triggers), "queued": len(m1.Trig.QueuedTriggers)})
 		w.Nontrivial(label + "/roundtrip")
 		if accept2 {
-			w.Add(fmt.Sprintf("CDeepRound %s\n (%s)\n (%s)\n (%s)\n (%s)\n (%s)", coqStr(label+"/second"), c18DeepTables(cdc, st2deep, m2x.Hold, d2x, d3), d2x.coq(), d3.coq(), ixRef2, ixImp2),
+			w.Add(fmt.Sprintf("CDeepRound %s\n (%s)\n (%s)\n (%s)\n (%s)\n (%s)", coqStr(label+"/second"), c18DeepTables(cdc, st2deep, m2x.Hold, stateMarkers2, d2x, d3), d2x.coq(), d3.coq(), ixRef2, ixImp2),
 				map[string]any{"kind": "deep_roundtrip", "label": label, "generation": 2, "orders": len(d2x.Exch.Orders), "markers": len(d2x.Mark.Markers), "scopes": len(d2x.Md.Scopes)})
 		}
-		w.Add(fmt.Sprintf("CDeepRound %s\n (%s)\n (%s)\n (%s)\n (%s)\n (%s)", coqStr(label), c18DeepTables(cdc, st1, m1.Hold, d1, d2), d1.coq(), d2.coq(), ixRef, ixImp),
+		w.Add(fmt.Sprintf("CDeepRound %s\n (%s)\n (%s)\n (%s)\n (%s)\n (%s)", coqStr(label), c18DeepTables(cdc, st1, m1.Hold, stateMarkers1, d1, d2), d1.coq(), d2.coq(), ixRef, ixImp),
 			map[string]any{"kind": "deep_roundtrip", "label": label, "orders": len(d1.Exch.Orders), "commitments": len(d1.Exch.Commitments), "payments": len(d1.Exch.Payments),
 				"markers": len(d1.Mark.Markers), "deny": len(d1.Mark.DenySendAddresses), "scopes": len(d1.Md.Scopes), "sessions": len(d1.Md.Sessions), "records": len(d1.Md.Records),
 				"scope_specs": len(d1.Md.ScopeSpecifications), "locators": len(d1.Md.ObjectStoreLocators)})
-		for _, m := range c18Modules {
+		for _, m := range append(append([]string{}, c18Modules...), c18MarkerAccounts) {
 			diff := storeDiff[m]
 			desc := map[string]any{"kind": "store", "label": label, "module": m, "differing_entries": len(diff)}
 			if len(diff) > 0 {
@@ -1026,3 +1114,137 @@ func c18Perturbed(t *testing.T, r *rand.Rand, w *CaseWriter, label string, ref *
 }
 
 var _ = bytes.Equal
+
+// c18AttrCounters: the attribute module's name->address lookup counters (prefix 0x03), raw.
+func c18AttrCounters(n *c18Net) map[string]string {
+	out := map[string]string{}
+	for _, e := range n.rawStore(attrtypes.StoreKey) {
+		if strings.HasPrefix(e, "03") {
+			if kv := strings.SplitN(e, "=", 2); len(kv) == 2 {
+				out[kv[0]] = kv[1]
+			}
+		}
+	}
+	return out
+}
+
+
+// c18AttrMsgTarget: the (name, account) whose lookup counter a single-message attribute transaction touches
+func c18AttrMsgTarget(p *c18Tx) (name, account string, ok bool) {
+	if p == nil || len(p.msgs) != 1 {
+		return "", "", false
+	}
+	switch m := p.msgs[0].(type) {
+	case *attrtypes.MsgDeleteDistinctAttributeRequest:
+		return m.Name, m.Account, true
+	case *attrtypes.MsgDeleteAttributeRequest:
+		return m.Name, m.Account, true
+	case *attrtypes.MsgAddAttributeRequest:
+		return m.Name, m.Account, true
+	case *attrtypes.MsgUpdateAttributeRequest:
+		return m.Name, m.Account, true
+	}
+	return "", "", false
+}
+
+// c18AttrCounterDiffers: the transaction is a single attribute add / update / delete and the lookup counter of
+// its (name, account) had different values on the two chains before the block.
+func c18AttrCounterDiffers(p *c18Tx, ctrA, ctrB map[string]string) bool {
+	name, account, ok := c18AttrMsgTarget(p)
+	if !ok {
+		return false
+	}
+	key := hex.EncodeToString(attrtypes.AttributeNameAddrKeyPrefix(name, attrtypes.GetAttributeAddressBytes(account)))
+	return ctrA[key] != ctrB[key]
+}
+
+// c18AttrDoubleCounted: the known shape exactly - on the exporting chain the counter of the
+// (name, account) the transaction deletes from is ABOVE the number of records held, on the
+// imported chain it IS that number.
+func c18AttrDoubleCounted(p *c18Tx, ref, imp *c18Net) bool {
+	name, account, ok := c18AttrMsgTarget(p)
+	if !ok {
+		return false
+	}
+	key := hex.EncodeToString(attrtypes.AttributeNameAddrKeyPrefix(name, attrtypes.GetAttributeAddressBytes(account)))
+	count := func(n *c18Net) (uint64, uint64) {
+		attrs, _ := n.app.AttributeKeeper.GetAttributes(n.queryCtx(), account, name)
+		var c uint64
+		if bz, err := hex.DecodeString(c18AttrCounters(n)[key]); err == nil && len(bz) == 8 {
+			c = sdk.BigEndianToUint64(bz)
+		}
+		return c, uint64(len(attrs))
+	}
+	ca, ra := count(ref)
+	cb, rb := count(imp)
+	return ca > ra && cb == rb && ra == rb
+}
+
+// c18EventsPartEqual: the stripped post-import digests ("height:results|events") agree on the events part.
+func c18EventsPartEqual(a, b []string) bool {
+	if len(a) != len(b) {
+		return false
+	}
+	for i := range a {
+		x, y := strings.Split(a[i], "|"), strings.Split(b[i], "|")
+		if len(x) != 2 || len(y) != 2 || x[1] != y[1] {
+			return false
+		}
+	}
+	return true
+}
+
+// c18AttrCounterMismatch lists, for one chain, the (name, account) pairs whose stored name->address
+// lookup counter (attribute store, prefix 0x03: "rebuilt by InitGenesis" in Genesis/StorePrefixDoc.v)
+// is not the number of attribute records the account holds under that name.  exact = false only
+// lists counters that are too LOW or missing (the exporting chain's counters may be too high:
+// known finding 2).
+func c18AttrCounterMismatch(n *c18Net, exact bool) []string {
+	want := map[string]uint64{}
+	_ = try(func() error {
+		return n.app.AttributeKeeper.IterateRecords(n.queryCtx(), attrtypes.AttributeKeyPrefix, func(a attrtypes.Attribute) error {
+			want[hex.EncodeToString(attrtypes.AttributeNameAddrKeyPrefix(a.Name, a.GetAddressBytes()))]++
+			return nil
+		})
+	})
+	have := map[string]uint64{}
+	for k, v := range c18AttrCounters(n) {
+		if bz, err := hex.DecodeString(v); err == nil && len(bz) == 8 {
+			have[k] = sdk.BigEndianToUint64(bz)
+		}
+	}
+	var out []string
+	for k, w := range want {
+		if h := have[k]; h < w || (exact && h != w) {
+			out = append(out, fmt.Sprintf("%s: counter %d, records %d", k, h, w))
+		}
+	}
+	if exact {
+		for k, h := range have {
+			if _, ok := want[k]; !ok {
+				out = append(out, fmt.Sprintf("%s: counter %d, records 0", k, h))
+			}
+		}
+	}
+	sort.Strings(out)
+	return out
+}
+
+// c18AttrCounterCases: the derived-entry obligation of the attribute lookup counters, on both chains
+func c18AttrCounterCases(w *CaseWriter, label string, ref, imp *c18Net, direct bool) {
+	for _, c := range []struct {
+		name string
+		bad  []string
+	}{
+		{"attribute:lookup-counter-below-records(exporting)", c18AttrCounterMismatch(ref, false)},
+		// right after the import the rebuilt counters are exact; once the imported chain has run
+		// transactions of its own it may double-count like any chain (known finding 2)
+		{map[bool]string{true: "attribute:lookup-counter-is-not-record-count(imported)", false: "attribute:lookup-counter-below-records(imported)"}[direct], c18AttrCounterMismatch(imp, direct)},
+	} {
+		desc := map[string]any{"kind": "store", "label": label, "module": c.name, "differing_entries": len(c.bad)}
+		if len(c.bad) > 0 {
+			desc["first_differences"] = c.bad[:min(len(c.bad), 12)]
+		}
+		w.Add(fmt.Sprintf("CStore %s %s %s", coqStr(label), coqStr(c.name), c18N(uint64(len(c.bad)))), desc)
+	}
+}
